@@ -103,6 +103,18 @@ def costOfName (name tld : String) : Option Int :=
 
 def nameKey (name tld : String) : String := name ++ "." ++ tld
 
+/-- a guard inside a handler: continue iff the condition holds, otherwise the handler fails -/
+def req (c : Prop) [Decidable c] : Option Unit := if c then some () else none
+
+@[simp] theorem req_eq_some (c : Prop) [Decidable c] (u : Unit) : req c = some u ↔ c := by
+  unfold req; split <;> simp [*]
+
+/-- a name is live while it is registered and `height ≤ Expires` -/
+def isLive (s : State) (key : String) (h : Int) : Bool :=
+  match AMap.get s.names key with
+  | some w => decide (h ≤ w.expires)
+  | none => false
+
 /-- `SendCoinsFromModuleToAccount`: refuses blocked recipients. -/
 def sendFromModule (s : State) (dst : String) (c : Coins) : Option Bank :=
   if s.blocked.contains dst then none else Bank.send s.bank s.moduleAcc dst c
@@ -119,36 +131,39 @@ def hasPrimary (s : State) (owner : String) : Bool :=
     | a :: b :: _ => AMap.contains s.names (nameKey a b)
     | _ => false
 
+/-- Expiry a successful registration writes: a live name may only be extended by its owner (term
+added to the current expiry); a fresh or expired name runs from the current height. -/
+def regExpiry (s : State) (key creator : String) (h term : Int) : Option Int :=
+  match AMap.get s.names key with
+  | some w =>
+    if h ≤ w.expires then (if w.value = creator then some (term + w.expires) else none)
+    else some (term + h)
+  | none => some (term + h)
+
+def setPrimaryIf (s : State) (creator key : String) (flag : Bool) : State :=
+  if flag || !(hasPrimary s creator) then { s with primary := AMap.set s.primary creator key } else s
+
 def register (s : State) (h : Int) (creator lname data : String) (years : Int) (setPrimary : Bool) :
     Option State := do
   let (name, tld) ← nameAndTLD lname
   let cost ← costOfName name tld
-  if years < 1 ∨ years > maxYears then none
+  req (1 ≤ years ∧ years ≤ maxYears)
   let price : Coins := [("ujkl", cost * years)]
-  let term := years * yearBlocks
-  let expires ←
-    match AMap.get s.names (nameKey name tld) with
-    | some w =>
-      if h ≤ w.expires then
-        (if w.value ≠ creator then none else some (term + w.expires))
-      else some (term + h)
-    | none => some (term + h)
+  let expires ← regExpiry s (nameKey name tld) creator h (years * yearBlocks)
   let b1 ← Bank.send s.bank creator s.moduleAcc price
   let b2 ← sendFromModule { s with bank := b1 } s.polAcc price
   let rec' : NameRec :=
     { name := name, tld := tld, expires := expires, value := creator, data := data, locked := 0, subs := [] }
-  let s1 := { s with bank := b2, names := AMap.set s.names (nameKey name tld) rec' }
-  if setPrimary || !(hasPrimary s1 creator) then
-    some { s1 with primary := AMap.set s1.primary creator (nameKey name tld) }
-  else some s1
+  some (setPrimaryIf { s with bank := b2, names := AMap.set s.names (nameKey name tld) rec' }
+          creator (nameKey name tld) setPrimary)
 
 def list (s : State) (h : Int) (creator lname priceRaw : String) (price : Option Coin) : Option State := do
-  if AMap.contains s.forsale lname then none
+  req (¬ (AMap.contains s.forsale lname))
   let (n, tld) ← nameAndTLD lname
   let w ← AMap.get s.names (nameKey n tld)
-  if w.value ≠ creator then none
-  if w.locked > h then none
-  if h > w.expires then none
+  req (w.value = creator)
+  req (w.locked ≤ h)
+  req (h ≤ w.expires)
   some { s with forsale := AMap.set s.forsale lname
                   { name := lname, owner := creator, priceRaw := priceRaw, price := price } }
 
@@ -156,17 +171,17 @@ def delist (s : State) (creator lname : String) : Option State := do
   let sale ← AMap.get s.forsale lname
   let (n, tld) ← nameAndTLD lname
   let w ← AMap.get s.names (nameKey n tld)
-  if sale.owner ≠ creator then none
-  if w.value ≠ sale.owner then none
+  req (sale.owner = creator)
+  req (w.value = sale.owner)
   some { s with forsale := AMap.erase s.forsale lname }
 
 def buy (s : State) (h : Int) (creator lname : String) : Option State := do
   let sale ← AMap.get s.forsale lname
   let (n, tld) ← nameAndTLD lname
   let w ← AMap.get s.names (nameKey n tld)
-  if h > w.expires then none
-  if w.value = creator then none
-  if w.value ≠ sale.owner then none
+  req (h ≤ w.expires)
+  req (w.value ≠ creator)
+  req (w.value = sale.owner)
   let (d, amt) ← sale.price
   let coins ← Bank.newCoins d amt
   let b1 ← Bank.send s.bank creator s.moduleAcc coins
@@ -175,15 +190,16 @@ def buy (s : State) (h : Int) (creator lname : String) : Option State := do
                 forsale := AMap.erase s.forsale sale.name,
                 names := AMap.set s.names (nameKey n tld) { w with value := creator, data := "{}" } }
 
+/-- Bid first returns the escrow of the bid it replaces (same bidder ++ name index), if any. -/
+def refundOld (s : State) (index : String) : Option Bank :=
+  match AMap.get s.bids index with
+  | some old => old.price.bind (fun oldCoins => sendFromModule s old.bidder oldCoins)
+  | none => some s.bank
+
 def bid (s : State) (creator lname priceRaw : String) (price : Option Coins) : Option State := do
   let coins ← price
   let index := creator ++ lname
-  let b0 ←
-    match AMap.get s.bids index with
-    | some old => do
-      let oldCoins ← old.price
-      sendFromModule s old.bidder oldCoins
-    | none => some s.bank
+  let b0 ← refundOld s index
   let b1 ← Bank.send b0 creator s.moduleAcc coins
   some { s with bank := b1,
                 bids := AMap.set s.bids index
@@ -199,9 +215,9 @@ def cancelBid (s : State) (creator lname : String) : Option State := do
 def acceptBid (s : State) (h : Int) (creator lname bidder : String) : Option State := do
   let (n, tld) ← nameAndTLD lname
   let w ← AMap.get s.names (nameKey n tld)
-  if h > w.expires then none
-  if w.value ≠ creator then none
-  if w.locked > h then none
+  req (h ≤ w.expires)
+  req (w.value = creator)
+  req (w.locked ≤ h)
   let index := bidder ++ lname
   let b ← AMap.get s.bids index
   let coins ← b.price
@@ -212,50 +228,50 @@ def acceptBid (s : State) (h : Int) (creator lname bidder : String) : Option Sta
 def transfer (s : State) (h : Int) (creator lname receiver : String) : Option State := do
   let (n, tld) ← nameAndTLD lname
   let w ← AMap.get s.names (nameKey n tld)
-  if h > w.expires then none
-  if w.value ≠ creator then none
-  if w.locked > h then none
+  req (h ≤ w.expires)
+  req (w.value = creator)
+  req (w.locked ≤ h)
   some { s with names := AMap.set s.names (nameKey n tld) { w with value := receiver, data := "{}" } }
 
 def update (s : State) (h : Int) (creator lname data : String) : Option State := do
   let (n, tld) ← nameAndTLD lname
   let w ← AMap.get s.names (nameKey n tld)
-  if w.value ≠ creator then none
-  if h > w.expires then none
+  req (w.value = creator)
+  req (h ≤ w.expires)
   some { s with names := AMap.set s.names (nameKey n tld) { w with data := data } }
 
 def addRecord (s : State) (h : Int) (creator lname record recordLower value data : String) :
     Option State := do
   let (n, tld) ← nameAndTLD lname
   let w ← AMap.get s.names (nameKey n tld)
-  if h > w.expires then none
-  if creator ≠ w.value then none
-  if value.contains '.' then none
-  if w.subs.any (fun sd => sd.name = record) then none
+  req (h ≤ w.expires)
+  req (creator = w.value)
+  req (¬ (value.contains '.'))
+  req (¬ (w.subs.any (fun sd => sd.name = record)))
   let sub : SubRec := { name := recordLower, value := value, data := data, tld := w.tld, expires := w.expires }
   some { s with names := AMap.set s.names (nameKey n tld) { w with subs := w.subs ++ [sub] } }
 
+/-- `GetSubdomain`: needs a "."; sub = first piece, name = second piece -/
+def subdomainOf (n0 : String) : Option (String × String) :=
+  match n0.splitOn "." with
+  | a :: b :: _ => some (a, b)
+  | _ => none
+
 def delRecord (s : State) (h : Int) (creator lname : String) : Option State := do
   let (n0, tld) ← nameAndTLD lname
-  -- GetSubdomain: needs a "."; sub = first piece, name = second piece
-  let (sub, n) ←
-    match n0.splitOn "." with
-    | a :: b :: _ => some (a, b)
-    | _ => none
+  let (sub, n) ← subdomainOf n0
   let w ← AMap.get s.names (nameKey n tld)
-  if h > w.expires then none
-  if creator ≠ w.value then none
-  if !(w.subs.any (fun sd => sd.name = sub)) then none
+  req (h ≤ w.expires)
+  req (creator = w.value)
+  req (w.subs.any (fun sd => sd.name = sub))
   some { s with names := AMap.set s.names (nameKey n tld)
                   { w with subs := w.subs.filter (fun sd => sd.name ≠ sub) } }
 
 def init (s : State) (h : Int) (creator genName : String) : Option State := do
-  if AMap.contains s.inits creator then none
-  if genName.contains '.' then none
-  if genName.length < 6 then none
-  match AMap.get s.names (nameKey genName "jkl") with
-  | some w => if h ≤ w.expires then none
-  | none => pure ()
+  req (¬ (AMap.contains s.inits creator))
+  req (¬ (genName.contains '.'))
+  req (6 ≤ genName.length)
+  req (¬ isLive s (nameKey genName "jkl") h)
   let t := initBlocks + h
   let rec' : NameRec :=
     { name := genName, tld := "jkl", expires := t, value := creator, data := "{}", locked := t, subs := [] }
@@ -309,4 +325,11 @@ def Op.creator : Op → String
   | .acceptBid c .. | .transfer c .. | .update c .. | .addRecord c .. | .delRecord c ..
   | .init c .. | .makePrimary c .. => c
 
+end Canine.Rns
+
+namespace Canine.Rns
+/-- A history: messages with the block height each was delivered at. -/
+def run (s : State) : List (Int × Op) → State
+  | [] => s
+  | (h, op) :: rest => run (stepT s h op) rest
 end Canine.Rns
